@@ -242,7 +242,7 @@ def main():
     chk.merge(core.parallel(shard, core.interleave(cfgs, core.NPROC), seed=chk.seed))
     chk.assumptions += ["pymc / pytensor graph evaluation is trusted; angles are entered as unit vectors so the circular parameterisation contributes a constant",
                         "declared densities: log-uniform P, Kipping13Global e, capped Normal K, Normal trend/offset terms, LogNormal jitter when sampled"]
-    return chk.finish()
+    return chk.finish(run_case)
 
 
 def replay(doc):
